@@ -125,6 +125,15 @@ MUTANTS = [
     ("permodule-glob-replaces-instead-of-layering", "C17", "permodule", "mypy/options.py", "                    options = options.apply_changes(self.per_module_options[key])", "                    options = self.apply_changes(self.per_module_options[key])", "violation"),
     ("permodule-wildcard-key-without-star", "C17", "permodule", "mypy/options.py", '            key = ".".join(path[:i] + ["*"])', '            key = ".".join(path[:i])', "violation"),
     ("H-permodule-key-local", "C17", "permodule", "mypy/options.py", '            key = ".".join(path[:i] + ["*"])', '            prefix = path[:i]\n            key = ".".join(prefix + ["*"])', "pass"),
+    ("stale-sccs-dep-hashes-ignored", "C02", "find_stale_sccs", "mypy/build.py", "        fresh = fresh and not stale_deps\n", "        fresh = fresh and True\n", "violation"),
+    ("stale-sccs-hash-test-inverted", "C02", "find_stale_sccs", "mypy/build.py", "                if dep in graph and graph[dep].interface_hash != graph[id].dep_hashes[dep]:", "                if dep in graph and graph[dep].interface_hash == graph[id].dep_hashes[dep]:", "violation"),
+    ("stale-sccs-indirect-deps-ignored", "C02", "find_stale_sccs", "mypy/build.py", "            if stale_indirect is not None:\n                fresh = False", "            if stale_indirect is not None:\n                fresh = fresh", "violation"),
+    ("stale-sccs-any-fresh-module-suffices", "C02", "find_stale_sccs", "mypy/build.py", "        stale_scc = {id for id in ascc.mod_ids if not graph[id].is_fresh()}\n        fresh = not stale_scc", "        stale_scc = {id for id in ascc.mod_ids if not graph[id].is_fresh()}\n        fresh = stale_scc != ascc.mod_ids", "violation"),
+    ("H-stale-sccs-local-renamed", "C02", "find_stale_sccs", "mypy/build.py", "        fresh = fresh and not stale_deps\n", "        no_stale_deps = not stale_deps\n        fresh = fresh and no_stale_deps\n", "pass"),
+    ("vtd-unchanged-hash-shortcut-inverted", "C02", "verify_transitive_deps", "mypy/build.py", "        if st.trans_dep_hash == st.meta.trans_dep_hash:\n            # Import graph unchanged, skip this module.\n            continue", "        if st.trans_dep_hash != st.meta.trans_dep_hash:\n            # Import graph unchanged, skip this module.\n            continue", "violation"),
+    ("vtd-direct-priority-instead-of-indirect", "C02", "verify_transitive_deps", "mypy/build.py", "            if st.priorities.get(dep) == PRI_INDIRECT:\n                dep_scc_id", "            if st.priorities.get(dep) != PRI_INDIRECT:\n                dep_scc_id", "violation|undecided"),
+    ("H-vtd-checks-unchanged-modules-too", "C02", "verify_transitive_deps|find_stale", "mypy/build.py", "        if st.trans_dep_hash == st.meta.trans_dep_hash:\n            # Import graph unchanged, skip this module.\n            continue", "        if False:\n            continue", "pass"),
+    ("H-stale-sccs-missing-dependency-counts-as-stale", "C02", "find_stale_sccs", "mypy/build.py", "                if dep in graph and graph[dep].interface_hash != graph[id].dep_hashes[dep]:", "                if dep not in graph or graph[dep].interface_hash != graph[id].dep_hashes[dep]:", "pass"),
     ("enabled-parent-check-dropped", "C13", "is_error_code_enabled", "mypy/errors.py", "elif error_code.sub_code_of is not None and error_code.sub_code_of in current_mod_disabled:\n            return False", "elif error_code.sub_code_of is not None and error_code.sub_code_of in current_mod_enabled:\n            return False", "violation"),
 ]
 
